@@ -14,7 +14,9 @@ from ..world import World
 PID = 'C18'
 RULE = ('Three generated parts. gate: auth configured as a non-empty dict of '
         'string credentials, a non-empty list of such dicts, a sync / async '
-        'predicate, or False; modes x read_only; admin CONNECT with payload '
+        'predicate (total, returning bools or truthy / falsy values, or '
+        'raising on payloads of a shape it does not expect), or False; '
+        'modes x read_only; admin CONNECT with payload '
         'absent, None, non-dicts, exact match, key permutations, '
         'sub/supersets, type-confused and nested variants, other list '
         'members: accepted iff the documented rule says so, a refused '
@@ -32,8 +34,9 @@ RULE = ('Three generated parts. gate: auth configured as a non-empty dict of '
         'admin listens.')
 ASSUMPTIONS = [
     'configured credentials are string-valued; empty dict/list credentials '
-    'are outside the domain; predicates are total functions; coroutine '
-    'predicates only with AsyncServer',
+    'are outside the domain; a payload that makes the predicate raise does '
+    'not satisfy it (how the attempt is turned down is then not judged, '
+    'only that it is); coroutine predicates only with AsyncServer',
     'traffic a candidate receives about its own provisional sid before the '
     'CONNECT_ERROR is an observation, not judged',
     'statistics tasks are collected and never run; engine.io Socket class '
@@ -75,7 +78,7 @@ def strategy(tier):
     gate = st.fixed_dictionaries({
         'part': st.just('gate'), 'aio': st.booleans(),
         'auth': st.sampled_from(['dict', 'list', 'pred', 'apred', 'false',
-                                 'tpred', 'tapred']),
+                                 'tpred', 'tapred', 'rpred', 'rapred']),
         'mode': st.sampled_from(['development', 'production']),
         'read_only': st.booleans(),
         'payloads': st.lists(payload_variants(), min_size=1, max_size=4)})
@@ -167,7 +170,26 @@ def _tpred(p):
     return p.get('username') == 'admin' and p.get('password')
 
 
+def _rpred(p):
+    """A predicate as an application writes it for the payload it expects:
+    any other shape makes it raise (KeyError, TypeError)."""
+    return p['username'] == 'admin' and p['password'] == 'secret'
+
+
+def _rpred_oracle(p):
+    try:
+        return bool(_rpred(p))
+    except Exception:
+        return False        # does not satisfy the predicate
+
+
 def _mk_auth(kind, aio):
+    if kind in ('rpred', 'rapred'):
+        if kind == 'rapred' and aio:
+            async def arp(p):
+                return _rpred(p)
+            return arp, _rpred_oracle
+        return _rpred, _rpred_oracle
     if kind in ('tpred', 'tapred'):
         if kind == 'tapred' and aio:
             async def atp(p):
@@ -234,7 +256,21 @@ def _gate(case):
                     raise Violation('admin-accepted-without-credentials',
                                     'auth=%s payload=%r: %r'
                                     % (case['auth'], data, pk[:3]))
-                if len(err) != 1 or err[0]['nsp'] != '/admin' or \
+                raised = False
+                if case['auth'] in ('rpred', 'rapred'):
+                    try:
+                        _rpred(data)
+                    except Exception:
+                        raised = True
+                        w.h.swallowed[:] = []
+                        labels['predicate_raised'] = True
+                        labels['nontrivial'] = True
+                if raised:
+                    # how the attempt is turned down is not prescribed
+                    if len(err) > 1 or any(e['nsp'] != '/admin'
+                                           for e in err):
+                        raise Violation('admin-refusal-shape', repr(pk))
+                elif len(err) != 1 or err[0]['nsp'] != '/admin' or \
                         err[0]['data'] != {'message':
                                            'authentication failed'}:
                     raise Violation('admin-refusal-shape', repr(pk))
